@@ -310,7 +310,12 @@ func (g *G) genC08(p *Plan) {
 		if limit == 0 {
 			limit = 2000
 		}
-		for _, d := range []int{-400, -170, -1, 0, 1, 70, 400} {
+		ds := []int{-400, -170, -1, 0, 1, 70, 400}
+		if kind == "chunked" {
+			// the headers that announce the framing count against the limit too
+			ds = append(ds, -140, -110, -90, -60, -30, -10)
+		}
+		for _, d := range ds {
 			op := mk()
 			op.Body = g.body(g.smallSize())
 			if kind != "part" {
